@@ -686,20 +686,45 @@ Definition glue_stack : list word := [8%N; 3%N].
 Definition glue_reclaimed : list N := [88%N; 48%N].
 Definition glue_kept : list N := [8%N; 16%N; 24%N].
 
+(* the statement does not depend on the slot layout (prime table, load factor): what is kept / reclaimed is
+   derived from glue_collect_safe_thm, only the hypotheses are checked by computation *)
 Lemma glue_example :
   Gadm ex_hash ex_d false false glue_ops gc_init /\
   addr_ok (slots glue_g) /\ wf glue_heap (areg (slots glue_g)) [] /\ raw_wf glue_heap (areg (slots glue_g)) /\
   exists g1 l' rm,
     cmark ex_hash glue_heap (fuel_of glue_heap (areg (slots glue_g)) (aorder (slots glue_g))) [] glue_stack glue_g = Ok g1 /\
-    reclaimed_by_sweep g1 l' rm /\ map ptr rm = glue_reclaimed /\ map ptr (entries l') = glue_kept.
+    reclaimed_by_sweep g1 l' rm /\
+    (forall p, In p glue_kept -> (exists e, Holds l' e /\ ptr e = p) /\ ~ In p (map ptr rm)) /\
+    (forall x, In x rm -> ~ In (ptr x) glue_kept).
 Proof.
-  split; [apply adm_runb_ok; vm_compute; reflexivity|].
-  split; [apply addr_ok_b_sound; vm_compute; reflexivity|].
-  split; [apply wf_b_sound; vm_compute; reflexivity|].
-  split.
-  - exists (fun _ => 0). split; [intros p; lia|apply rawdec_b_sound; vm_compute; reflexivity].
-  - eexists. eexists. exists [mkE 88%N false false; mkE 48%N false false].
-    split; [vm_compute; reflexivity|].
-    split; [unfold reclaimed_by_sweep; vm_compute; reflexivity|].
-    split; vm_compute; reflexivity.
+  assert (Hadm : Gadm ex_hash ex_d false false glue_ops gc_init) by (apply adm_runb_ok; vm_compute; reflexivity).
+  assert (Ha : addr_ok (slots glue_g)) by (apply addr_ok_b_sound; vm_compute; reflexivity).
+  assert (Hwf : wf glue_heap (areg (slots glue_g)) []) by (apply wf_b_sound; vm_compute; reflexivity).
+  assert (Hraw : raw_wf glue_heap (areg (slots glue_g))).
+  { exists (fun _ => 0). split; [intros p; lia|apply rawdec_b_sound; vm_compute; reflexivity]. }
+  split; [exact Hadm|]. split; [exact Ha|]. split; [exact Hwf|]. split; [exact Hraw|].
+  destruct (registry_history_thm ex_hash ex_d false false glue_ops ex_d_ok Hadm) as [Hinv0 Hq0].
+  assert (Hinv : Inv ex_hash glue_g) by exact Hinv0.
+  assert (Hq : Quiet glue_g) by exact Hq0.
+  clear Hinv0 Hq0.
+  pose proof (inv_core ex_hash glue_g (proj1 Hinv)) as Hc.
+  set (rg := areg (slots glue_g)).
+  assert (R8 : reach glue_heap rg [] glue_stack 8%N) by (apply reach_stack; simpl; auto).
+  assert (R16 : reach glue_heap rg [] glue_stack 16%N).
+  { eapply reach_step with (p := 8%N) (c := Words [16%N]); [exact R8|vm_compute; reflexivity|reflexivity|].
+    apply pts_word. simpl. auto. }
+  assert (R24 : reach glue_heap rg [] glue_stack 24%N).
+  { eapply reach_step with (p := 16%N) (c := Items [24%N; 8%N]); [exact R16|vm_compute; reflexivity|reflexivity|].
+    apply pts_item; [simpl; auto|vm_compute; reflexivity]. }
+  assert (Hreach : forall p, In p glue_kept -> reach glue_heap rg [] glue_stack p).
+  { intros p Hp. unfold glue_kept in Hp. simpl in Hp. intuition (subst; assumption). }
+  assert (Hreg : forall p, In p glue_kept -> Reg glue_g p false).
+  { intros p Hp. apply (areg_spec ex_hash (slots glue_g) p false Hc Ha).
+    unfold glue_kept in Hp. simpl in Hp. intuition (subst; vm_compute; reflexivity). }
+  destruct (glue_collect_safe_thm ex_hash glue_heap glue_g [] glue_stack Hinv Hq Ha Hwf Hraw)
+    as (g1 & l' & rm & Hcm & _ & _ & _ & Hsw & _ & Hkeep & Hrm & _).
+  exists g1, l', rm. split; [exact Hcm|]. split; [exact Hsw|]. split.
+  - intros p Hp. destruct (Hkeep p false (Hreg p Hp) (or_intror (Hreach p Hp))) as [[e [He [Hpe _]]] Hn].
+    split; [exists e; auto|exact Hn].
+  - intros x Hx Hin. destruct (Hrm x Hx) as [_ Hn]. apply Hn. apply Hreach. exact Hin.
 Qed.
